@@ -434,6 +434,19 @@ def front_end_tables(ctx):
                     bad.append({"method": method, "seed": seed, "count": count, "dimensions": dim, "batch_shape": list(batch.shape), "equal": False})
             except Exception as e:  # noqa
                 bad.append({"method": method, "seed": seed, "count": count, "dimensions": dim, "raised": repr(e)[:160]})
+        # long batches (a front end may build them in pieces): lengths around the powers of two up to 2^13, shape and the rows at the ends / piece boundaries
+        for k in range(8, 14):
+            for count in (2 ** k - 1, 2 ** k, 2 ** k + 1):
+                n += 1
+                seed, dim = 1 + (k % 3), 1 + (k % 2)
+                try:
+                    batch = np.asarray(front.quasirandom(count, dim, method=method, seed=seed), dtype=float)
+                    rows = sorted({0, 1, count - 2, count - 1, count // 2} | {j for p in range(8, k + 1) for j in (2 ** p - 1, 2 ** p) if j < count})
+                    ok = batch.shape == (count, dim) and all(np.array_equal(batch[j], np.asarray(front.quasirandom(dim, method=method, seed=seed + j), dtype=float).reshape(dim)) for j in rows)
+                    if not ok:
+                        bad.append({"method": method, "seed": seed, "count": count, "dimensions": dim, "batch_shape": list(batch.shape), "equal": False})
+                except Exception as e:  # noqa
+                    bad.append({"method": method, "seed": seed, "count": count, "dimensions": dim, "raised": repr(e)[:160]})
     ctx.ground("sampling.quasirandom/tables/every_method_batch_equals_single", not bad, clause=f"for every method name in the dispatch tables ({sorted(front._BATCH)}) the batch form returns, row by row, "
                "the single-point form for the same seeds", detail=bad[:3], witness=bad[:2], fn=f)
     bad2 = []
